@@ -24,7 +24,7 @@ BRANCHES = [
     "destruct.no-inventory", "destruct.inventory-hooks", "destruct.hook-enabled-the-dying-object",
     "destruct.hook-disabled-the-dying-object", "take",
     "clone.blueprint-heart-beat-switched-off", "clone.blueprint-has-no-heart-beat", "timer-fired", "heart_beats()",
-    "replace_program", "replace_programs:program-swapped", "error.caught-by-catch", "reload_object", "enable_commands", "eval_cost-used", "timer_flags-set",
+    "replace_program", "replace_programs:program-swapped", "error.after-self-destruct", "error.caught-by-catch", "reload_object", "enable_commands", "eval_cost-used", "timer_flags-set",
     "chb.call.living:command_giver=ob", "chb.call.not-living:command_giver=0", "chb.call.eval_cost-was-full",
     "chb.call.eval_cost-reset-after-use", "chb.timer_flags-without-HEARTBEAT:empty",
     "chb.timer_flags-without-HEARTBEAT:list-kept",
@@ -251,6 +251,13 @@ class C11(Prop):
                                     "do o0 reload,o3,1", "do o0 hbs", "tick", "tick"])
         mk("reload-clamps", ["do o0 clone,o2,0,1", "do o0 reload,o2,40000", "do o0 reload,o2,-3", "do o0 q,o2",
                              "do o0 reload,o2,4294967297", "do o0 q,o2", "tick"])
+        # --- an error raised by an object that destructed itself in its own heart_beat: error_handler calls
+        #     set_heart_beat (current_heart_beat, 0) on a destructed object (the O_DESTRUCTED return)
+        mk("error-after-self-destruct", pop3 + ["script o3 hb:0 dest,o3;err;hbs", "tick", "do o0 hbs", "tick", "do o0 q,o3"])
+        mk("error-after-self-destruct-first-and-last", pop3 + ["script o2 hb:0 dest,o2;err", "script o4 hb:1 shb,o4,0;dest,o4;err",
+                                                               "tick", "tick", "tick", "do o0 hbs"])
+        mk("error-after-self-destruct-with-inventory", pop3 + ["do o3 take,o4", "script o4 md shb,o3,1;hbs",
+                                                               "script o3 hb:0 dest,o3;err", "tick", "do o0 hbs", "tick"])
         # --- replace_program: the program is swapped at the top of the backend loop; call_heart_beat re-reads
         #     ob->prog->heart_beat on every visit, the entry stays on the list and is counted down but never called
         mk("replace-program-in-own-beat", pop3 + ["script o3 hb:0 rp;hbs", "tick", "tick", "do o0 hbs", "do o0 q,o3", "tick"])
@@ -297,6 +304,8 @@ class C11(Prop):
                 ops.append("q,o%d" % t)
             elif k == "dest":
                 ops.append("dest,o%d" % t)
+                if allow_err and rng.chance(1, 4):
+                    ops.append("err")      # reaches error_handler even when the object has just destructed itself
             elif k == "take":
                 ops.append("take,o%d" % t)
             elif k == "reload":
